@@ -121,8 +121,8 @@ let result_fs (r : M.result) : M.fs =
 
 let () =
   (* library level: (config doc-reference-reading doc-serde-reading project-exists after-by-impl loaded-by-impl)
-     -> (saved loaded preserved-oracle roundtrip-oracle (kf ...)) ; the oracles are applied to the
-     implementation's document after / settings loaded *)
+     -> (saved-or-() loaded oracle); the oracle lib_ok_b is applied to the implementation's
+     document after / settings loaded *)
   Registry.register "lib" (fun s ->
     match list s with
     | [c; dref; d; ex; impl_after; impl_loaded] ->
@@ -133,24 +133,18 @@ let () =
          | Some d ->
              let dref = match opt_ json_ dref with Some r -> r | None -> d in
              let saved = M.c19_save c d in
-             let f : M.fs = (explode "tauri.conf.json", M.NDoc (Some saved))
+             let doc_now = match saved with Some x -> x | None -> d in
+             let f : M.fs = (explode "tauri.conf.json", M.NDoc (Some doc_now))
                             :: (if ex then [(M.c19_norm c.M.project_path, M.NDir)] else []) in
              let loaded = M.c19_load f (explode "tauri.conf.json") in
-             let pres = match opt_ json_ impl_after with
-               | Some a -> M.c19_preserved dref a | None -> false in
-             let pres_serde = match opt_ json_ impl_after with
-               | Some a -> M.c19_preserved d a | None -> false in
              let il = match impl_loaded with
                | List [Atom "some"; c'] -> M.LOk (config_ c')
                | List [Atom "none"] -> M.LNone
                | _ -> M.LErr in
-             let rt = M.c19_roundtrip f c il in
-             let kfs = List.concat [
-               (if M.c19_kf_plugins_not_object d then [Atom "C19-3"] else []);
-               (if M.c19_kf_root_array d then [Atom "C19-4"] else []);
-               (if M.c19_kf_case_dropped c then [Atom "C19-5"] else []);
-               (if M.c19_kf_number_misread dref d then [Atom "C19-7"] else [])] in
-             List [of_json saved; of_lres loaded; of_bool pres; of_bool rt; List kfs; of_bool pres_serde])
+             (* impl_after: (x) = the save reported success and x is the document now;
+                () = it reported an error and the file is byte for byte what it was *)
+             let ok = M.c19_lib_ok f c dref (opt_ json_ impl_after) il in
+             List [of_opt of_json saved; of_lres loaded; of_bool ok])
     | _ -> failwith "c19-lib: bad case");
   (* generate: (fs flags obs-of-impl) -> (result spec-invalid spec-eff oracle (kf ...)) *)
   Registry.register "generate" (fun s ->
@@ -181,13 +175,6 @@ let () =
         let ok = M.c19_init_ok f il bref' (obs_ o) (opt_ json_ after) in
         let ok_serde = match before with
           | Some d -> M.c19_init_ok f il d (obs_ o) (opt_ json_ after) | None -> ok in
-        let kfs = List.concat [
-          (if M.c19_kf_init_writes_first f il then [Atom "C19-2"] else []);
-          (match M.c19_fs_get f t with
-           | Some (M.NDoc (Some d)) ->
-               (if M.c19_kf_plugins_not_object d then [Atom "C19-3"] else []) @
-               (if M.c19_kf_root_array d then [Atom "C19-4"] else []) @
-               (if M.c19_kf_number_misread bref' d then [Atom "C19-7"] else [])
-           | _ -> [])] in
+        let kfs = [] in
         List [of_result f r; of_str (M.c19_norm t); doc_after; of_bool ok; List kfs; of_bool ok_serde]
     | _ -> failwith "c19-init: bad case")
